@@ -45,7 +45,7 @@ CHECKS = {
     "C14": {
         "text": "Stepper.tla models method objects at the granularity of the code's loop iterations (evaluate user callables, mutate network, advance counter, record) for Tempo, MeanFieldTempo, PtTebd (with export/restart), PtTempo and GibbsTempo; TLC checks history independence, idempotence and no-op-when-reached over all histories of calls and all injected transient failures in the bound, proves that each named deviation (the defects found) violates them, and emits every history with per-call expected outcomes; each history is replayed on real objects and after every call raised/step/labels/content are compared (content against an uninterrupted run; chains also by prime-factor norms).",
         "note": "Trusted: TLC, reference-run oracle for content (tolerance 1e-9), failure injection by exceptions from the user's Hamiltonian / field equation. Known findings (MeanFieldTempo field-stage failure, PtTebd restart at a pre-control step) are matched only on histories where the deviated spec predicts a non-canonical state.",
-        "technique": "TLA+ spec + TLC exhaustive over call histories and fault points; spec->code replay with per-action comparison; deviations as named spec constants",
+        "technique": "TLA+ spec + TLC exhaustive over call histories and fault points; spec->code replay with per-action comparison; code->spec trace validation with TLC (traces of the repository's tests and a randomised driver); deviations as named spec constants",
     },
     "C03": {
         "text": "PTContract.tla is the exact reference semantics of system + ancilla environments (monomial joint dynamics tracked term by term in integer arithmetic) stepped like compute_dynamics; TLC checks injectivity/hermiticity/diagonal invariants and enumerates gate plans x control schedules x 0..3 environments, emitting the exact reduced state after every step; real SimpleProcessTensors (rank 3/4, unitary and non-unitary transforms, caps computed or by hand), Systems and Controls are built from the same gate alphabet and compute_dynamics is compared entry by entry; list permutations are asserted only for system-diagonal environments; additivity of spectral densities is bound with the probe bath.",
@@ -120,13 +120,13 @@ _ADDENDA = {
     "C04": " Every configuration uses a complex Hermitian Hamiltonian; PT-TEBD runs include chain controls (a non-unital channel pre and post measurement, a unitary kick).",
     "C07": " The plan system records the start time for which propagators are requested; the bath-dynamics cross-check covers all dagger orders, change_only, thermal and vacuum terms and first requests on a fresh object. SysCorrCache.tla models the incremental store of system correlations behind TwoTimeBathCorrelations (pad + append of the block compute_correlations returns; caller-supplied matrices); TLC checks Square / Covers / Aligned / Monotone over all request histories and that two deviations violate them; every history is replayed on a real object with a clock system and prime-valued coupling operator, the stored matrix decoded entry by entry to time pairs after every request and every answer compared with a fresh object's. The time axis of the bath occupations is checked over a lattice of (dt, N).",
     "C11": " Numerical parts: closed form of the commuting model for T = 0.08 .. 2.5 (1e-8); Hermiticity / positivity for non-commuting models; a re-used GibbsParameters object.",
-    "C14": " Transient failures are raised by the Hamiltonian, the Lindblad rate or the Lindblad operator.",
+    "C14": " Transient failures are raised by the Hamiltonian, the Lindblad rate or the Lindblad operator. Code -> spec: every public compute call made by the repository's own unmodified tests and by a randomised driver is recorded (harness-side wrappers, failing calls included) and TLC validates every event against TraceRun.tla (Continuity, Monotone, Target, Records, FixedEnd); a corrupted copy of the trace must be rejected.",
     "C15": " Part (e): parameters estimated from a time-dependent system (guess_tempo_parameters) under a shift of the origin.",
     "C06": " The degeneracy maps are demanded for affine images (large offset, small scale) of every eigenvalue pattern.",
     "C08": " Cases with control operations (pre and post, same step) go through compute_gradient_and_dynamics(control=...) and the chain rule; numerically differentiated cases are partly preceded by a use of the same system object with another time step.",
     "C09": " A field-independent mean-field system (t-dependent Hamiltonian, Lindblad rate and operator) is compared with plain TEMPO (numerical).",
     "C10": " Homogeneous chains (bit-identical bond Liouvillians) are part of the configurations; the order-controlled executor implements map() and submit().",
-    "C13": " PT-TEBD grids are also reached in two compute() calls followed by a call whose end step has been passed.",
+    "C13": " PT-TEBD grids are also reached in two compute() calls followed by a call whose end step has been passed. DynamicsObj.tla includes rejected add() calls (RejectKeeps). Code -> spec: traces of the repository's tests and of a randomised driver are validated by TLC against TraceRun.tla (Target: floor((target - start)/dt) steps with on-grid targets included; Records: one sorted, aligned time point per step).",
     "C16": " Every abstract process tensor is also written tensor by tensor into a file-backed twin whose own compute_caps() must reproduce the in-memory caps (trace-preserving transforms).",
     "C17": " The mode matrix is replayed with the existing file appearing between the writer's last test and its open (a second real writer), and writers are interrupted by an exception inside the j-th propagation step (between file operations).",
     "C18": " A Control object that served another start time before is re-used (cd-reused). Controls stamped outside the computed range never act; every schedule of <= 2 step controls is also replayed through the gradient's backward pass (exact derivative from the term trajectories).",
